@@ -200,6 +200,10 @@ TRAILING = [_V_SCAN + " x", _V_SCAN + _V_SCAN, _V_RESET + " }", _V_RESET + "EOF"
 GARBAGE += TRAILING
 
 
+# agent names are arbitrary text chosen by the agent: empty, with path separators, dots, a NUL, non-ASCII, longer than a file name may be
+ODD_NAMES = ["", "a/b", "../up", "..", "nul\x00byte", "back\\slash", "n\u00e4me \u4e2d", "x" * 300, "\u00fc" * 200, " lead", "a_Attacker"]
+
+
 # roles that are not allowed: unknown names and values that are not even text (a JSON list, object, number, null, boolean)
 BAD_ROLES = ["Hacker", "", "attacker", ["Attacker"], {"role": "Attacker"}, 7, None, True, [], 1.5]
 
@@ -278,7 +282,7 @@ class Gen:
                 S.send(a, t, d)
             return
         if not joined:
-            nm = rng.choice(["a", "b", "c", "same"])
+            nm = rng.choice(["a", "b", "c", "same"]) if rng.random() < 0.8 else rng.choice(ODD_NAMES)
             role = rng.choice(["Attacker", "Attacker", "Defender", "Benign"])
             S.send(a, nsgenv.join(nm, role), {"kind": "join", "name": nm, "role": role})
             return
@@ -561,7 +565,8 @@ def directed(rng, k):
         S = CR.Session(cfg, draw=draw)
         a = ("10.2.16.1", 1)
         S.connect(a); S.settle()
-        _join(S, a, "z", "Attacker"); S.settle()
+        # (trajectories are saved: the name - arbitrary text - is not usable as a file name as it stands)
+        _join(S, a, "z/9" if variant == 0 else "z" * 300, "Attacker"); S.settle()
         for n_actions in (2, 0, 1, 0, 0, 2, 0):
             for _ in range(n_actions):
                 st = S.g._agent_states.get(a)
